@@ -222,7 +222,8 @@ def _work_loc(job):
     ok = want == got and bool(o1["fatal"]) == bool(o2["fatal"])
     res = dict(idx=job["idx"], ok=ok, exc=[o1["exc"], o2["exc"]], law=law)
     if not ok or job.get("keep"):
-        res.update(text=t1, text2=t2, want=want[:12], got=got[:12], fatal=[o1["fatal"], o2["fatal"]],
+        res.update(text=t1, text2=t2, want=want[:12], got=got[:12], fatal=[o1["fatal"], o2["fatal"]], names=[n1, n2],
+                   kline=(lm2[law["k"] - 1] if law["t"] == "L2" else 0),
                    missing=sorted(set(want) - set(got))[:6], extra=sorted(set(got) - set(want))[:6])
     return res
 
@@ -266,7 +267,7 @@ def run_c19(pid, tier):
                 R.sample(dict(law=rec["law"], violation=rec["viol"]["op"], diagnostics_before=w["want"][:4], diagnostics_after=w["got"][:4]))
             continue
         R.violation(dict(kind="locality", law=rec["law"], violation_op=rec["viol"]["op"], missing=w["missing"], extra=w["extra"],
-                         fatal=w["fatal"], text=w["text"], text2=w["text2"]))
+                         fatal=w["fatal"], text=w["text"], text2=w["text2"], names=w.get("names"), kline=w.get("kline", 0)))
     return R.finish()
 
 
@@ -277,11 +278,27 @@ def run(pid, tier):
 def replay(pid, path):
     rec = json.load(open(path))
     if pid == "C19":
-        o1 = observe.run_file(rec["text"], "test.c")
-        o2 = observe.run_file(rec["text2"], "test.c")
-        print("law", rec["law"], "\nbefore:", diag_list(o1)[:10], "\nafter :", diag_list(o2)[:10])
-        print("(the law is evaluated by `./check C19`; this replay shows both runs)")
-        return 1
+        names = rec.get("names") or ["test.c", "test.c"]
+        o1 = observe.run_file(rec["text"], names[0])
+        o2 = observe.run_file(rec["text2"], names[1])
+        d1 = [(d[0], d[1], d[2], d[3]) for d in o1["diags"]]
+        d2 = [(d[0], d[1], d[2], d[3]) for d in o2["diags"]]
+        law = rec["law"]
+        if law["t"] == "L1":
+            want, got = sorted((lv, c, ln + 12, col) for (lv, c, ln, col) in d2 if c != "INVALID_HEADER"), sorted(d1)
+        elif law["t"] == "L2":
+            k = rec.get("kline") or 0
+            if not k:
+                print("(record without the line of the inserted comment: re-run `./check C19`)")
+                return 2
+            want, got = sorted((lv, c, ln if ln < k else ln + 1, col) for (lv, c, ln, col) in d1), sorted(d2)
+        else:
+            want, got = sorted(d1), sorted(d2)
+        print("law", law, "\nexpected:", want[:10], "\nobserved:", got[:10])
+        if want != got or bool(o1["fatal"]) != bool(o2["fatal"]):
+            print(f"VIOLATION property={pid} replay={path}")
+            return 1
+        return 0
     o1 = observe.run_file(rec["text_a"], rec["file"])
     o2 = observe.run_file(rec["text_b"], rec["file"])
     print("a:", diag_list(o1)[:10], "\nb:", diag_list(o2)[:10])
